@@ -177,6 +177,7 @@ def run(chk):
     ok = chk.build_and_prove()
     # a broken proof / theorem file: enlarge the search for a failing input to the thorough scope
     tt.run_timed(chk, "C15", NAMES, oracle, ncase=None if ok else 2000)
+    tt.closed_world(chk, "C15", NAMES)
     chk.cov["rule"] = ("per operator: seeded instances (due times 0/5/10/20 ms as float seconds, timedelta or absolute "
                        "datetime incl. one in the past; scheduler passed to the operator or to subscribe; mapper "
                        "tables indexed by invocation, 12% raising) x seeded timelines of hand-driven hot sources on "
